@@ -6,8 +6,8 @@
 
 use jiff::{
     civil::DateTime,
-    tz::{AmbiguousZoned, Offset, TimeZone},
-    Timestamp, ToSpan, Zoned,
+    tz::{AmbiguousZoned, Disambiguation, Offset, TimeZone},
+    SignedDuration, Timestamp, ToSpan, Unit, Zoned,
 };
 
 use crate::c20::prog::*;
@@ -165,12 +165,89 @@ pub fn fixed_answer_check(tz: &TimeZone, s: i32) -> Result<(), String> {
     Ok(())
 }
 
+
+/// Operators on `Zoned` panic on overflow by contract; only use them well
+/// inside the supported range.
+fn mid_range(z: &Zoned) -> bool {
+    z.timestamp().as_second().abs() < 20_000_000_000
+}
+
+/// APIs that build a new `Zoned` (with its own clone of the handle) from an
+/// existing one. `None`: not applicable / legitimately failed.
+pub fn zoned_make(z: &Zoned, which: u8, arg: i16) -> Option<Zoned> {
+    let h = arg as i64;
+    let d = SignedDuration::from_secs(h * 977);
+    let ud = std::time::Duration::from_secs(h.unsigned_abs() * 977);
+    match which % N_ZONED_MAKE {
+        0 => z.checked_sub(h.hours()).ok(),
+        1 => z.saturating_add(h.hours()).into(),
+        2 => z.saturating_sub(h.minutes()).into(),
+        3 => z.checked_add(d).ok(),
+        4 => z.checked_sub(ud).ok(),
+        5 if mid_range(z) => Some(z + h.hours()),
+        6 if mid_range(z) => Some(z - h.minutes()),
+        7 if mid_range(z) => Some(z + d),
+        8 if mid_range(z) => Some(z - d),
+        9 if mid_range(z) => Some(z + ud),
+        10 if mid_range(z) => Some(z - ud),
+        11 => z.start_of_day().ok(),
+        12 => z.end_of_day().ok(),
+        13 => z.first_of_month().ok(),
+        14 => z.last_of_month().ok(),
+        15 => z.first_of_year().ok(),
+        16 => z.last_of_year().ok(),
+        17 => z.tomorrow().ok(),
+        18 => z.yesterday().ok(),
+        19 => z.nth_weekday(1 + (h.rem_euclid(3)) as i32, jiff::civil::Weekday::Monday).ok(),
+        20 => z.with().hour(h.rem_euclid(24) as i8).build().ok(),
+        21 => z.round(Unit::Hour).ok(),
+        22 => z.checked_add(h.days()).ok(),
+        23 => z.nth_weekday_of_month(1, jiff::civil::Weekday::Friday).ok(),
+        _ => None,
+    }
+}
+
+/// In-place APIs; the number of handles must not change.
+pub fn zoned_mutate(z: &mut Zoned, which: u8, arg: i16) {
+    let h = arg as i64;
+    let d = SignedDuration::from_secs(h * 977);
+    let ud = std::time::Duration::from_secs(h.unsigned_abs() * 977);
+    if !mid_range(z) {
+        return;
+    }
+    match which % N_ZONED_MUTATE {
+        0 => *z += h.hours(),
+        1 => *z -= h.minutes(),
+        2 => *z += d,
+        3 => *z -= d,
+        4 => *z += ud,
+        5 => *z -= ud,
+        6 => {
+            // clone_from of itself through a temporary
+            let tmp = z.clone();
+            z.clone_from(&tmp);
+        }
+        7 => {
+            // replace by a value derived from itself
+            let next = z.saturating_add(h.seconds());
+            let old = std::mem::replace(z, next);
+            drop(old);
+        }
+        _ => {
+            // swap with a clone
+            let mut other = z.clone();
+            std::mem::swap(z, &mut other);
+        }
+    }
+}
+
 pub trait Env {
     /// A new zone instance is about to be created (start recording its
     /// footprint).
     fn pre_new(&mut self, spec: &Spec);
-    /// It was created; returns its instance id.
-    fn post_new(&mut self, spec: &Spec) -> u32;
+    /// It was created; returns its instance id (an existing id if the
+    /// constructor handed out another handle to an existing zone).
+    fn post_new(&mut self, spec: &Spec, tz: &TimeZone) -> u32;
     /// The number of live handles of `zone` changed by `delta`.
     fn handles(&mut self, zone: u32, delta: i32);
     /// Checks an answer against the reference.
@@ -182,6 +259,9 @@ pub trait Env {
     fn recv(&mut self, me: u8) -> Option<Slot>;
     fn swap_shared(&mut self, slot: Option<Slot>) -> Option<Slot>;
     /// Around operations that must not allocate at all.
+    /// Memory-model check in the middle of an operation, before the
+    /// operation touches a value again. `false`: stop, the run is aborting.
+    fn checkpoint(&mut self, what: &'static str) -> bool;
     fn no_alloc_begin(&mut self);
     fn no_alloc_end(&mut self, what: &'static str);
 }
@@ -222,7 +302,7 @@ pub fn apply<E: Env>(me: u8, op: &Op, slots: &mut Slots, env: &mut E) -> bool {
         Op::New { dst, spec } => {
             env.pre_new(spec);
             let tz = make_tz(spec);
-            let zone = env.post_new(spec);
+            let zone = env.post_new(spec, &tz);
             env.handles(zone, 1);
             if let Spec::Fixed(s) = *spec {
                 if let Err(e) = fixed_answer_check(&tz, s) {
@@ -385,6 +465,100 @@ pub fn apply<E: Env>(me: u8, op: &Op, slots: &mut Slots, env: &mut E) -> bool {
                     // The handle inside `amb` was dropped with it.
                     env.handles(zone, -1);
                 }
+            }
+        }
+        Op::ZonedMake { src, dst, which, arg } => {
+            let Some(x) = slots[ix(*src)].as_ref() else { return false };
+            let Val::Zoned(ref z) = x.val else { return false };
+            let (zone, spec) = (x.zone, x.spec.clone());
+            if let Some(z2) = zoned_make(z, *which, *arg) {
+                env.handles(zone, 1);
+                if let Err(e) = zoned_consistent(&z2) {
+                    env.fail("zoned_consistency", e);
+                }
+                if z2.time_zone() != z.time_zone() {
+                    env.fail("eq_clone", format!("Zoned API {which} changed the time zone of a {spec:?}"));
+                }
+                put(slots, *dst, Some(Slot { val: Val::Zoned(z2), zone, spec }), env);
+            }
+        }
+        Op::ZonedMutate { slot, which, arg } => {
+            let Some(x) = slots[ix(*slot)].as_mut() else { return false };
+            let Val::Zoned(ref mut z) = x.val else { return false };
+            zoned_mutate(z, *which, *arg);
+            if !env.checkpoint("zoned_mutate") {
+                return false;
+            }
+            let Some(Slot { val: Val::Zoned(ref z), .. }) = slots[ix(*slot)] else {
+                return false;
+            };
+            if let Err(e) = zoned_consistent(z) {
+                env.fail("zoned_consistency", e);
+            }
+        }
+        Op::ZonedCompare { a, b } => {
+            let (Some(x), Some(y)) = (slots[ix(*a)].as_ref(), slots[ix(*b)].as_ref()) else {
+                return false;
+            };
+            let (Val::Zoned(ref p), Val::Zoned(ref q)) = (&x.val, &y.val) else { return false };
+            let (pq, qp) = (p == q, q == p);
+            if pq != qp || !(p == p) {
+                env.fail("eq_symmetric", "Zoned equality is not symmetric/reflexive".into());
+            }
+            if (p.cmp(q) == core::cmp::Ordering::Equal) != (p.timestamp() == q.timestamp()) {
+                env.fail("zoned_consistency", "Zoned ordering disagrees with its timestamp".into());
+            }
+            let _ = p.duration_until(q);
+        }
+        Op::TzMake { src, dst, which, t } => {
+            let Some(x) = slots[ix(*src)].as_ref() else { return false };
+            let tz = x.val.tz();
+            let (zone, spec) = (x.zone, x.spec.clone());
+            let dt = datetime(*t);
+            let made: Option<Val> = match which % N_TZ_MAKE {
+                0 => Some(Val::Zoned(Zoned::new(instant(*t), tz.clone()))),
+                1 => tz.to_zoned(dt).ok().map(Val::Zoned),
+                2 => dt.to_zoned(tz.clone()).ok().map(Val::Zoned),
+                3 => dt.date().to_zoned(tz.clone()).ok().map(Val::Zoned),
+                4 => Some(Val::Amb(tz.to_ambiguous_zoned(dt))),
+                _ => Some(Val::Zoned(instant(*t).to_zoned(tz.clone()))),
+            };
+            if let Some(val) = made {
+                env.handles(zone, 1);
+                if let Val::Zoned(ref z) = val {
+                    if let Err(e) = zoned_consistent(z) {
+                        env.fail("zoned_consistency", e);
+                    }
+                }
+                put(slots, *dst, Some(Slot { val, zone, spec }), env);
+            }
+        }
+        Op::AmbOp { src, dst, which } => {
+            let s = ix(*src);
+            let Some(x) = slots[s].as_ref() else { return false };
+            if !matches!(x.val, Val::Amb(_)) {
+                return false;
+            }
+            let Some(Slot { val: Val::Amb(amb), zone, spec }) = slots[s].take() else {
+                unreachable!()
+            };
+            // Every variant consumes `amb`; the handle either moves into the
+            // result or is dropped with it.
+            let r: Option<Val> = match which % N_AMB_OPS {
+                0 => Some(Val::Tz(amb.into_time_zone())),
+                1 => amb.earlier().ok().map(Val::Zoned),
+                2 => amb.unambiguous().ok().map(Val::Zoned),
+                3 => amb.disambiguate(Disambiguation::Reject).ok().map(Val::Zoned),
+                4 => amb.disambiguate(Disambiguation::Later).ok().map(Val::Zoned),
+                _ => {
+                    let c = amb.clone();
+                    drop(amb);
+                    Some(Val::Amb(c))
+                }
+            };
+            match r {
+                Some(val) => put(slots, *dst, Some(Slot { val, zone, spec }), env),
+                None => env.handles(zone, -1),
             }
         }
         Op::Send { slot, to } => {
